@@ -79,7 +79,7 @@ pub trait Scenario: Send + Sync + 'static {
 #[derive(Clone, Debug, Serialize, Deserialize)]
 pub struct KnownFinding {
     pub property: String,
-    /// exact violation key, or a prefix ending in '*'
+    /// violation key; `*` matches any run of characters
     pub key: String,
     /// "known" | "fixed"
     pub status: String,
@@ -117,11 +117,36 @@ pub fn load_known_findings() -> Vec<KnownFinding> {
     }
 }
 
+/// `*` matches any (possibly empty) run of characters
+pub fn glob_match(pattern: &str, text: &str) -> bool {
+    let parts: Vec<&str> = pattern.split('*').collect();
+    if parts.len() == 1 {
+        return pattern == text;
+    }
+    let mut pos = 0usize;
+    for (i, part) in parts.iter().enumerate() {
+        if i == 0 {
+            if !text.starts_with(part) {
+                return false;
+            }
+            pos = part.len();
+        } else if i == parts.len() - 1 {
+            return text.len() >= pos + part.len() && text[pos..].ends_with(part);
+        } else {
+            match text[pos..].find(part) {
+                Some(at) => pos += at + part.len(),
+                None => return false,
+            }
+        }
+    }
+    true
+}
+
 pub fn match_known<'a>(known: &'a [KnownFinding], v: &Violation) -> Option<&'a KnownFinding> {
     known.iter().find(|k| {
         k.status == "known"
             && k.property == v.property
-            && (k.key == v.key || (k.key.ends_with('*') && v.key.starts_with(&k.key[..k.key.len() - 1])))
+            && glob_match(&k.key, &v.key)
     })
 }
 
@@ -170,6 +195,8 @@ pub struct BatchStats {
     pub violation_hits: BTreeMap<String, u64>,
     /// violations of *other* properties seen while running this property's scenarios (not reported here: their own checks decide them)
     pub incidental: BTreeMap<String, u64>,
+    /// hits per known-finding pattern
+    pub known_hits: BTreeMap<String, u64>,
 }
 
 impl BatchStats {
@@ -190,6 +217,7 @@ impl BatchStats {
             harness_errors: vec![],
             violation_hits: BTreeMap::new(),
             incidental: BTreeMap::new(),
+            known_hits: BTreeMap::new(),
         }
     }
     fn merge(&mut self, o: BatchStats) {
@@ -225,6 +253,9 @@ impl BatchStats {
         }
         for (k, v) in o.incidental {
             *self.incidental.entry(k).or_insert(0) += v;
+        }
+        for (k, v) in o.known_hits {
+            *self.known_hits.entry(k).or_insert(0) += v;
         }
     }
 }
@@ -280,7 +311,8 @@ pub struct BatchResult<P> {
     pub wall: Duration,
 }
 
-pub fn run_batch<S: Scenario>(scn: &Arc<S>, cfg: &CheckCfg, tag: &str, budget: Duration) -> BatchResult<S::P> {
+pub fn run_batch<S: Scenario>(scn: &Arc<S>, cfg: &CheckCfg, tag: &str, budget: Duration, known: &[KnownFinding]) -> BatchResult<S::P> {
+    let known: Arc<Vec<KnownFinding>> = Arc::new(known.to_vec());
     let start = Instant::now();
     let counter = Arc::new(AtomicU64::new(0));
     let stop = Arc::new(AtomicBool::new(false));
@@ -293,10 +325,12 @@ pub fn run_batch<S: Scenario>(scn: &Arc<S>, cfg: &CheckCfg, tag: &str, budget: D
         let stop = Arc::clone(&stop);
         let found = Arc::clone(&found);
         let found_keys = Arc::clone(&found_keys);
+        let known = Arc::clone(&known);
         let verif_seed = cfg.verif_seed;
         let tier = cfg.tier;
         let max_runs = cfg.max_runs;
         let tag = tag.to_string();
+        let key_limit: usize = if std::env::var_os("VERIF_SURVEY").is_some() { usize::MAX } else { 24 };
         handles.push(
             std::thread::Builder::new()
                 .stack_size(8 << 20)
@@ -327,7 +361,7 @@ pub fn run_batch<S: Scenario>(scn: &Arc<S>, cfg: &CheckCfg, tag: &str, budget: D
                     };
                     // ---- outcome sink
                     let sink = {
-                        let (scn, stop, found, found_keys) = (Arc::clone(&scn), Arc::clone(&stop), Arc::clone(&found), Arc::clone(&found_keys));
+                        let (scn, stop, found, found_keys, known) = (Arc::clone(&scn), Arc::clone(&stop), Arc::clone(&found), Arc::clone(&found_keys), Arc::clone(&known));
                         move |stats: &mut BatchStats, idx: u64, p: S::P, out: RunOut| {
                         stats.evaluations += 1;
                         stats.steps += out.steps;
@@ -382,6 +416,10 @@ pub fn run_batch<S: Scenario>(scn: &Arc<S>, cfg: &CheckCfg, tag: &str, budget: D
                             let mut keys = found_keys.lock().unwrap();
                             for v in violations.iter() {
                                 *stats.violation_hits.entry(v.key.clone()).or_insert(0) += 1;
+                                if let Some(kf) = match_known(&known, v) {
+                                    *stats.known_hits.entry(kf.key.clone()).or_insert(0) += 1;
+                                    continue;
+                                }
                                 let n = keys.entry(v.key.clone()).or_insert(0);
                                 *n += 1;
                                 if *n <= 3 {
@@ -390,7 +428,7 @@ pub fn run_batch<S: Scenario>(scn: &Arc<S>, cfg: &CheckCfg, tag: &str, budget: D
                                     found.lock().unwrap().push(Found { params: p.clone(), out: o, violation: v.clone(), run_index: idx });
                                 }
                             }
-                            if keys.len() >= 24 {
+                            if keys.len() >= key_limit {
                                 stop.store(true, Ordering::Relaxed);
                             }
                         }
@@ -510,7 +548,7 @@ fn same_violation(out: &RunOut, key: &str, property: &str, scn_name: &str) -> bo
 }
 
 /// Delta-debugging style minimisation: simpler parameters, fewer preemptions, shorter script.
-pub fn minimise<S: Scenario>(scn: &Arc<S>, f: &Found<S::P>, budget_runs: u64) -> (S::P, RunOut, Value) {
+pub fn minimise<S: Scenario>(scn: &Arc<S>, f: &Found<S::P>, budget_runs: u64, deadline: Instant) -> (S::P, RunOut, Value) {
     let key = f.violation.key.clone();
     let prop = f.violation.property.clone();
     let mut best_p = f.params.clone();
@@ -544,10 +582,10 @@ pub fn minimise<S: Scenario>(scn: &Arc<S>, f: &Found<S::P>, budget_runs: u64) ->
 
     // 1. simpler parameters
     let mut progress = true;
-    while progress && runs < budget_runs {
+    while progress && runs < budget_runs && Instant::now() < deadline {
         progress = false;
         for cand in scn.shrink(&best_p) {
-            if runs >= budget_runs {
+            if runs >= budget_runs || Instant::now() >= deadline {
                 break;
             }
             // (a) same schedule script first (partial script semantics)
@@ -575,7 +613,7 @@ pub fn minimise<S: Scenario>(scn: &Arc<S>, f: &Found<S::P>, budget_runs: u64) ->
             break;
         }
         for _ in 0..120 {
-            if runs >= budget_runs + 400 {
+            if runs >= budget_runs + 400 || Instant::now() >= deadline {
                 break 'outer;
             }
             let mut spec = scn.sched(&best_p).clone();
@@ -598,7 +636,7 @@ pub fn minimise<S: Scenario>(scn: &Arc<S>, f: &Found<S::P>, budget_runs: u64) ->
         let full = best_out.decisions.clone();
         let (mut lo, mut hi) = (0usize, full.len());
         let mut best_script: Option<(Vec<u8>, RunOut)> = None;
-        while lo < hi && runs < budget_runs + 600 {
+        while lo < hi && runs < budget_runs + 600 && Instant::now() < deadline + Duration::from_secs(5) {
             let mid = (lo + hi) / 2;
             let cand = scn.with_sched(&best_p, scn.sched(&best_p).replaying(full[..mid].to_vec()));
             let out = scn.execute(&cand, false);
@@ -824,23 +862,35 @@ impl<S: Scenario> PartRunner for Part<S> {
             }
         };
         // 2. the search
-        let r = run_batch(scn, cfg, &tag, budget);
+        let r = run_batch(scn, cfg, &tag, budget, known);
         stats.merge(r.stats);
         // 3. triage
         let mut new_violations = vec![];
         let mut known_hits: BTreeMap<String, (KnownFinding, u64)> = BTreeMap::new();
+        for (k, n) in stats.known_hits.iter() {
+            if let Some(kf) = known.iter().find(|kf| &kf.key == k) {
+                known_hits.insert(k.clone(), (kf.clone(), *n));
+            }
+        }
         let mut seen_new: HashSet<String> = HashSet::new();
+        let survey = std::env::var_os("VERIF_SURVEY").is_some();
         for f in r.found.iter() {
-            if let Some(kf) = match_known(known, &f.violation) {
-                let n = stats.violation_hits.get(&f.violation.key).copied().unwrap_or(1);
-                known_hits.entry(kf.key.clone()).or_insert((kf.clone(), 0)).1 = n.max(known_hits.get(&kf.key).map(|e| e.1).unwrap_or(0));
+            if let Ok(only) = std::env::var("VERIF_ONLY_KEY") {
+                if !f.violation.key.contains(&only) {
+                    continue;
+                }
+            } else if survey {
+                break;
+            }
+            if match_known(known, &f.violation).is_some() {
                 continue;
             }
             if !seen_new.insert(f.violation.key.clone()) {
                 continue;
             }
-            // minimise, re-record, confirm in a fresh process
-            let (p, out, info) = minimise(scn, f, 1500);
+            // minimise (time-boxed), re-record, confirm in a fresh process
+            let minimise_s = if seen_new.len() <= 4 { 12 } else if seen_new.len() <= 12 { 3 } else { 0 };
+            let (p, out, info) = minimise(scn, f, 1500, Instant::now() + Duration::from_secs(minimise_s));
             let v = out.violations.iter().find(|v| v.key == f.violation.key).cloned().unwrap_or_else(|| f.violation.clone());
             let name = format!("{}-{}-{}.json", scn.property(), sanitize(&v.key), f.run_index);
             let path = write_replay(scn, cfg, &p, &out, &v, f.run_index, info, replay_dir, &name);
